@@ -862,6 +862,9 @@ func c10Transactions(r *engine.Run) (int64, int, map[string]int) {
 		edit("append-attacker-output", func(t *mtx.Tx) bool { t.Out = append(t.Out, out(6, 1, 0)); return true })
 		edit("type=1", func(t *mtx.Tx) bool { t.Type = 1; return true })
 		edit("length+1", func(t *mtx.Tx) bool { t.Length++; return true })
+		edit("length=0", func(t *mtx.Tx) bool { t.Length = 0; return true })
+		edit("length=max", func(t *mtx.Tx) bool { t.Length = ^uint32(0); return true })
+		edit("length-low-byte=0", func(t *mtx.Tx) bool { t.Length &^= 0xff; return true })
 		edit("inner-hash-zeroed", func(t *mtx.Tx) bool { t.Inner = [32]byte{}; return true })
 	}
 	engine.ParFor(len(jobs), func(i int) {
